@@ -79,8 +79,9 @@ PROPS = {
                  'nested borrowing from a borrowed share is covered by the machine correspondence and the assert in borrow(), not by a theorem'],
     ),
     'C01': dict(
-        gen=['Kernel', 'Timing'], props=['C01', 'Machine', 'Skeletons'],
-        model=['Prim/KernelModel', 'Machine/Kernel', 'Machine/Run', 'Judge/Judges', 'Lemmas/PushBucket', 'Lemmas/KView', 'Lemmas/KStepFrames', 'Lemmas/KStep'],
+        gen=['Kernel', 'Timing'], props=['C01', 'Machine', 'MachineTrace', 'Skeletons'],
+        model=['Prim/KernelModel', 'Machine/Kernel', 'Machine/Run', 'Judge/Judges', 'Lemmas/PushBucket', 'Lemmas/KView', 'Lemmas/KStepFrames', 'Lemmas/KStep',
+               'Lemmas/TView', 'Lemmas/TStepFrames', 'Lemmas/TStep'],
         harness='c01',
         trusted_base=KERNEL_TB + MACHINE_TB + [
             'shape templates (exact AST match, else broken obligation): Loop.schedule/_run_events/_run_coroutine/__init__/run, Activation.__bool__, '
@@ -90,7 +91,8 @@ PROPS = {
         assumptions=['Layer-K theorems hold for every activity behaviour that respects the assertion of Loop.schedule; Props/Machine.lean proves '
                      'that every statement, frame and primitive of the whole machine respects it (assertions on) and touches clock, wait queue '
                      'and saved kernels only through Loop.schedule, run() and the loop: the clock theorems hold for every program and every '
-                     'number of machine steps',
+                     'number of machine steps; Props/MachineTrace.lean adds that the time stamps of the trace (what is compared with the '
+                     'implementation) are sorted for every program, as long as no nested simulation is open',
                      'exact rational time; float absorption (t + d == t) is outside the theorems'],
         partial=['"a timed wait resumes exactly at its date" is proved per primitive (delay_wakeup_key, advance_runs_bucket_of_new_time) and '
                  'checked on whole programs by the trace correspondence; it is not lifted to a whole-machine theorem'],
